@@ -13,8 +13,23 @@ LEMMAS = {
 }
 
 
+def run_slab_model(wd, thorough):
+    cfg = os.path.join(wd, 'SlabLayoutMC.cfg')
+    lens = '1..2048' if thorough else '{1, 2, 3, 4, 7, 10, 33, 50, 100, 319, 320, 321, 1000, 2047, 2048}'
+    open(cfg, 'w').write('CONSTANT NeedleLens = %s\nINIT Init\nNEXT Next\nINVARIANTS LayoutSafeAscii LayoutSafeUnicode WidthMonotone\nCHECK_DEADLOCK FALSE\n' % lens)
+    rc, out = tlc('SlabLayoutMC.tla', cfg=cfg, workers=NCPU, timeout=6000, xmx='8g')
+    st = tlc_stats(out)
+    if tlc_failed(rc, out) or not st['completed'] or 'is violated' in out:
+        die_tool('SlabLayoutMC: the layout model violates its own invariant (oracle defect)\n' + out[-3000:])
+    st['invariants'] = ['LayoutSafeAscii', 'LayoutSafeUnicode', 'WidthMonotone']
+    st['needle_lengths'] = lens
+    return st
+
+
 def run_lemmas(prop, wd, cdb, thorough):
     invs = LEMMAS[prop]
+    if prop == 'C10':
+        return run_slab_model(wd, thorough)
     if not invs:
         return None
     cfg = os.path.join(wd, 'FzfMC.cfg')
@@ -59,6 +74,7 @@ def main(prop):
     tot = {'records': 0, 'blocks': 0, 'positive': 0, 'fails': 0, 'known': 0}
     states = trans = 0
     bad_ids = {}
+    drift = []
     for f, (rc, out) in zip(files, res):
         err = tlc_failed(rc, out)
         st = tlc_stats(out)
@@ -74,6 +90,8 @@ def main(prop):
                 for v in j['viol']:
                     if v[0] == prop:
                         bad_ids.setdefault((f, j['id']), []).append(v)
+                    elif v[0] == 'DRIFT' and prop == 'C10':
+                        drift.append((j['id'], v[1]))
                 for kf in j['known']:
                     if kf[0] == prop:
                         known[kf[1]] = known.get(kf[1], 0) + 1
@@ -81,6 +99,9 @@ def main(prop):
             die_tool('MatcherTrace on %s: no DONE line' % f)
         for k in tot:
             tot[k] += done[k]
+    if drift:
+        # the layout differs from SlabLayout.tla but every property clause held: not a violation
+        print('MODEL-DRIFT: %d records whose slab layout differs from spec/SlabLayout.tla (first: record %s %s)' % (len(drift), drift[0][0], drift[0][1]))
     if tot['records'] != gen['records']:
         die_tool('record count mismatch: harness wrote %d, TLC consumed %d' % (gen['records'], tot['records']))
     # fetch the offending records for the replay files
